@@ -88,6 +88,20 @@ def parse(s):
                     pos[0] = j + 1
                 e = ('idx', e, i, v)
                 continue
+            if peek(2) == '#{':
+                # a memory version on a whole object (`k#{E|[0]}`)
+                d, j = 0, pos[0] + 1
+                while j < n:
+                    if s[j] == '{':
+                        d += 1
+                    elif s[j] == '}':
+                        d -= 1
+                        if d == 0:
+                            break
+                    j += 1
+                e = ('ver', e, s[pos[0]:j + 1])
+                pos[0] = j + 1
+                continue
             if peek(2) in ('.0', '.1') and not (pos[0] + 2 < n and (s[pos[0] + 2].isalnum() or s[pos[0] + 2] == '_')):
                 e = ('call', 'sel' + peek(2), [e], None)
                 pos[0] += 2
@@ -166,6 +180,8 @@ def show(e):
         return '(%s as %s)' % (show(e[1]), e[2])
     if k == 'phi':
         return 'phi(%s)' % ' | '.join(show(a) for a in e[1])
+    if k == 'ver':
+        return show(e[1]) + e[2]
     return '?'
 
 
@@ -218,7 +234,7 @@ def counters(e, out=None):
     if k == 'call' and e[1] == 'each':
         out.add(show(e))
         return out
-    for a in (e[2] if k in ('call', 'aggr') else [e[1], e[2]] if k == 'idx' else [e[1]] if k == 'cast' else e[1] if k == 'phi' else []):
+    for a in (e[2] if k in ('call', 'aggr') else [e[1], e[2]] if k == 'idx' else [e[1]] if k in ('cast', 'ver') else e[1] if k == 'phi' else []):
         counters(a, out)
     return out
 
